@@ -115,11 +115,23 @@ struct Ctx {
         if (free_) q->_mx.unlock();
         woken.push_back(free_ ? id : id + 1000000);
     }
-    ~Ctx() {
-        // let parked helper threads go (not observed): kick their subscribers, release, join
+    // end of case: let parked helper threads go (not observed): kick their subscribers, release, join.  If a helper
+    // cannot be woken (a defect the trace has already shown) the process cannot clean up: finish the case and ask the
+    // runner for a restart (exit code 42)
+    void release_helpers() {
         for (auto &kv : helpers) {
             Helper &h = *kv.second;
             if (!h.wait_returns()) q->kick(subs[kv.first].p);
+            if (!h.wait_returns()) {
+                std::printf("END\n");
+                std::fflush(stdout);
+                std::_Exit(42);
+            }
+        }
+    }
+    ~Ctx() {
+        for (auto &kv : helpers) {
+            Helper &h = *kv.second;
             {
                 std::lock_guard _(h.mx);
                 h.st = Helper::Released;
@@ -402,6 +414,7 @@ int main(int argc, char **argv) {
                 c.q = c.pub->get_queue();
                 emit(c, 0, mn, mx, 0);
                 for (size_t i = 1; i < cs.ops.size(); i++) exec(c, cs.ops[i], fns);
+                c.release_helpers();
             }
         }
         std::printf("END\n");
